@@ -16,6 +16,7 @@ import Mochi.Driver.Restart
 import Mochi.Driver.Crash
 import Mochi.Driver.Shutdown
 import Mochi.Driver.Hooks
+import Mochi.Driver.Alias
 open Mochi.Driver
 
 structure DState where
@@ -28,6 +29,7 @@ structure DState where
   hostile : HState := {}
   restart : St.SrState := {}
   shutdown : SdState := {}
+  alias : AlState := {}
 
 /-- input line: `op args…<TAB>implementation output`;
     answer line: `model output<TAB>spec verdict<TAB>signature`; unknown op => `bad-op` -/
@@ -67,6 +69,9 @@ def answer (st : DState) (line : String) : DState × String :=
                   | none =>
                   match shutdownOp st.shutdown impl ws with
                   | some (d', r) => ({ st with shutdown := d' }, fmt r)
+                  | none =>
+                  match aliasOp st.alias impl ws with
+                  | some (a', r) => ({ st with alias := a' }, fmt r)
                   | none => (st, "bad-op")
 
 partial def loop (h : IO.FS.Stream) (out : IO.FS.Stream) (st : DState) : IO Unit := do
